@@ -2,13 +2,13 @@
 
 TRUSTED_BASE = [
     "Lean 4.33.0 kernel (thorough tier: re-checked by leanchecker); axioms per theorem audited with #print axioms, required to be a subset of {propext, Classical.choice, Quot.sound}; no sorry/admit/native_decide/bv_decide/axioms of ours",
-    "the tie: Go harness (generators, dumps, canonicalisation, differ), factgen (go/ast extractor) and the Lean driver's case reader are testing machinery; theorems are about the model, the correspondence run is differential evidence that model = code on the cases it ran",
+    "the tie: Go harness (generators, dumps, canonicalisation, differ), factgen (go/packages + go/types + x/tools go/ssa and its CHA call graph: fact extractor whose output the obligation modules compare with the tables the model is written against) and the Lean driver's case reader are testing machinery; theorems are about the model, the correspondence run is differential evidence that model = code on the cases it ran, the obligations are structural evidence about all code reachable from Evaluate (calls into other modules are listed, not analysed)",
     "modelled, not verified: go-sdk-common (ldcontext lookup, ldattr.Ref constructors, ldvalue type tests/equality, ldreason constructors), go-semver, Go slices as immutable lists, float32 hardware arithmetic as round-to-nearest-even without overflow/subnormals, amd64 float->int conversion, time.Date/Add/Before/After/UnixMilli as integer arithmetic, strconv.AppendInt, crypto/sha1 as the Lean SHA-1 (tested against Go on every bucketing case, not proved to be FIPS 180-4)",
     "oracle: Go's regexp (RE2) supplies match results to the model",
 ]
 
 COMMON_ASSUMPTIONS = [
-    "DataProvider returns, for a key, the item with that key or nil; BigSegmentProvider is a pure function of the key within one call and returns one of the four status constants",
+    "DataProvider is a function of the key within one call and may answer any lookup with any item (an item whose own Key differs from the lookup key is allowed and generated) or nil; BigSegmentProvider is a pure function of the key within one call and returns one of the four status constants",
     "inputs are valid UTF-8 strings and finite numbers; no raw (unparsed) ldvalue values",
 ]
 
